@@ -304,7 +304,7 @@ theorem master (cfg : Config) (fuel : Nat) (p : Node) (h0 : ns p = 0) (ht : targ
     have hnames : hookNames (if s1.status = Status.modified then insertPrologue (prologue cfg.dsts) p1 else p1) = hookNames p1 := by
       unfold hookNames; rw [hout _ rfl]
     have hk : ns p1 = s1.incs.length := by rw [good_ns_hookCount _ p1 g]; exact hcount
-    have hst' : s1.status = if ns p1 = 0 then Status.notModified else Status.modified := hst
+    have hst' : s1.status = if ns p1 = 0 then Status.notModified else Status.modified := hst.1
     refine ⟨by rw [hc]; exact hcount, ?_, ?_, ?_, ?_⟩
     · intro nm hnm
       rw [hnames] at hnm
